@@ -68,6 +68,19 @@ func init() {
 		// borrow/return: the guards
 		b := mustFunc("internal/jobs/raffle.go", "raffle", "borrowTicket")
 		o.p("def borrowGuards : List String := %s\n", leanList(append(ifCondsWhoseBodyContains(b, "return nil"), append(ifCondsWhoseBodyContains(b, "r.ticketsFull--"), ifCondsWhoseBodyContains(b, "r.ticketsIncr--")...)...)))
+		// the whole of borrowTicket runs under the mutex: Lock + deferred Unlock come before any read of the map
+		bs := topStatements(b)
+		lockFirst := "no"
+		for i, st := range bs {
+			if strings.Contains(st, "runningJobs") || strings.Contains(st, "runningJob(") {
+				break
+			}
+			if st == "r.runningMu.Lock()" && i+1 < len(bs) && bs[i+1] == "defer r.runningMu.Unlock()" {
+				lockFirst = "yes"
+				break
+			}
+		}
+		o.p("def borrowLockedFirst : String := %s\n", leanStr(lockFirst))
 		// pipelines: order of sink write and token store
 		for _, pl := range []string{"IncrementalPipeline", "FullSyncPipeline"} {
 			fd := mustFunc("internal/jobs/pipeline.go", pl, "sync")
